@@ -78,6 +78,8 @@ pub enum Variant {
     SerdeAfterWarmup,
     /// two inputs of magnitude ~1e154 (and volume 1e154) right after warm-up: products and sums overflow
     HugePair,
+    /// the instance comes from Default::default(); the bound is computed from the parameters it reports
+    DefaultInstance,
 }
 
 /// (b) long runs: serialized size at checkpoints, live heap after warm-up vs after every segment
@@ -88,7 +90,7 @@ fn long_job(cfg: &Cfg, regimes: &[Regime], seglen: usize, seed: u64, variant: Va
     out.stats.traces += 1;
     let r = std::panic::catch_unwind(std::panic::AssertUnwindSafe(|| {
         let mut g = Gen::new(10.0, seed);
-        let mut s = make(cfg);
+        let mut s = if variant == Variant::DefaultInstance { crate::subjects::make_default(cfg.kind) } else { make(cfg) };
         for i in 0..warm {
             let op = gen_op(cfg.kind, &mut g, Regime::Walk, i);
             s.apply(&op);
@@ -241,6 +243,34 @@ pub fn run(ctx: &Ctx) -> CheckResult {
         });
         res.absorb(merge_jobs(outs));
     }
+    // Default::default() instances: the bound follows from the parameters the instance REPORTS
+    if !res.out.failed() {
+        let kinds: Vec<Kind> = ALL_KINDS.to_vec();
+        let outs = par_run(ctx, &kinds, |_, &k| {
+            let mut out = JobOut::default();
+            let mut cfg = k.default_cfg();
+            let rep = std::panic::catch_unwind(|| {
+                let d = crate::subjects::make_default(k);
+                (d.period(), d.multiplier())
+            });
+            match rep {
+                Ok((p, m)) => {
+                    if let Some(p) = p {
+                        cfg.p[0] = p;
+                    }
+                    if let Some(m) = m {
+                        cfg.mult = m;
+                    }
+                    for pair in [[Regime::Walk, Regime::Flat], [Regime::Stair, Regime::Up]] {
+                        long_job(&cfg, &pair, if th { 200_000 } else { 20_000 }, ctx.seed, Variant::DefaultInstance, &mut out);
+                    }
+                }
+                Err(_) => out.fail(Violation::new(PROP, &cfg, &[], "panic").obs("Default::default() panicked".into()).exp("an instance".into())),
+            }
+            out
+        });
+        res.absorb(merge_jobs(outs));
+    }
     // self-test of the allocator instrumentation (vacuity guard)
     {
         let h0 = heap::live();
@@ -252,7 +282,7 @@ pub fn run(ctx: &Ctx) -> CheckResult {
     }
     res.exhaustive = false;
     res.rule = "case = (configuration, stream): (a) bincode length of the real object in every state of every short sequence; (b) long generated streams (every ordered pair of shape segments): serialized length at checkpoints and live heap bytes of the executing thread (counting global allocator) after warm-up vs after every segment; both must stay <= 256 + 64*sum(periods); non-trivial = state beyond the first window / long run".into();
-    res.bounds = format!("(a) all 22 indicators, periods 1..4, all sequences over 3 symbols + reset up to depth min(3n+3, {}); (b) periods {} x all 49 ordered pairs of {{up, down, alternating extremes, flat, LCG walk, stair, zero-mix (0.0 / -0.0 / small signed values)}} x segment length {} (O(n)-per-step subjects shortened and thinned); every 4th pair additionally with reset() every 10 / 2n+1 inputs, with one NaN input after warm-up, with two inputs of magnitude 1e154 (overflowing products), and continued on a bincode-restored copy", if th { 13 } else { 10 }, if th { "1..16, 31..33, 63..65, 127..129, 255..257, 511, 512" } else { "1, 2, 5, 14, 64, 257" }, if th { 500_000 } else { 20_000 });
+    res.bounds = format!("(a) all 22 indicators, periods 1..4, all sequences over 3 symbols + reset up to depth min(3n+3, {}); (b) periods {} x all 49 ordered pairs of {{up, down, alternating extremes, flat, LCG walk, stair, zero-mix (0.0 / -0.0 / small signed values)}} x segment length {} (O(n)-per-step subjects shortened and thinned); every 4th pair additionally with reset() every 10 / 2n+1 inputs, with one NaN input after warm-up, with two inputs of magnitude 1e154 (overflowing products), and continued on a bincode-restored copy; Default::default() instances of all 22 indicators against the bound of the parameters they report", if th { 13 } else { 10 }, if th { "1..16, 31..33, 63..65, 127..129, 255..257, 511, 512" } else { "1, 2, 5, 14, 64, 257" }, if th { 500_000 } else { 20_000 });
     res.assumptions = vec!["systematically enumerated family of stream shapes, not all streams".into(), "live heap is measured per thread: memory handed to another thread would not be seen (the crate spawns no threads)".into()];
     res
 }
